@@ -441,6 +441,39 @@ pub fn run(thorough: bool) -> Report {
         label.lock().unwrap().clear();
     });
     rep.merge(r3);
+    // ---- message size sweep: k ordinary OIDs + one OID of L arcs, every k until the message no longer fits
+    let r4 = par_shards(9, |i, rep, beat, label| {
+        let version = i / 3;
+        let pdu = [0xa0u8, 0xa1, 0xa5][i % 3];
+        *label.lock().unwrap() = format!("message size sweep v{} pdu {:02x}", version + 1, pdu);
+        let mut buf = Buffer::default();
+        let capacity = buf.free();
+        let mut n = 0u64;
+        let base: Vec<u64> = vec![1, 3, 6, 1, 2, 1, 2, 2, 1, 10];
+        let kmax = capacity / 13 + 2;
+        let mut k = 0usize;
+        while k <= kmax {
+            for l in [2usize, 3, 5, 8, 11, 14, 17, 21] {
+                if !thorough && k % 3 != 0 && l != 5 {
+                    continue;
+                }
+                let mut oids: Vec<Vec<u64>> = (0..k).map(|j| { let mut o = base.clone(); o.push(1 + (j as u64 % 100)); o }).collect();
+                oids.push(oid_of_len(l));
+                for &flags in if version == 2 { &[0u8, 1][..] } else { &[0u8][..] } {
+                    let c = MsgCase { version, pdu, rid: 0x12345678, x: if pdu == 0xa5 { 0 } else { 0x1234567 }, y: 25, z: 1000, oids: oids.clone(), name_len: 6, eng_len: if version == 2 { 11 } else { 0 }, flags };
+                    check_msg(&c, &mut buf, rep);
+                    n += 1;
+                }
+            }
+            k += 1;
+            beat.fetch_add(1, Ordering::Relaxed);
+        }
+        rep.count("messages", n);
+        rep.count("size_sweep_messages", n);
+        rep.count("evaluations", n);
+        label.lock().unwrap().clear();
+    });
+    rep.merge(r4);
     rep.sample(format!("{{\"int\": -32767, \"reference\": {}}}", jstr(&hex(&rb::enc_int(-32767)))));
     rep.sample(format!("{{\"oid\": \"2.39.4294967295.16384\", \"reference\": {}}}", jstr(&hex(&rb::enc_oid(&[2, 39, 4294967295, 16384])))));
     rep
